@@ -434,8 +434,11 @@ def report(prop, tier, seed, cfg, results, kres, known, t0):
         "wall_s": round(wall, 2),
         "violations": len(violations),
     }
-    os.makedirs(os.path.join(VERIF, "evidence"), exist_ok=True)
-    with open(os.path.join(VERIF, "evidence", prop + ".json"), "w") as f:
+    # evidence of record is only written for runs against /repo itself; authoring runs against a
+    # scratch copy (VERIF_REPO=...) go to work/ so they can never be committed by accident
+    evdir = os.path.join(VERIF, "evidence") if os.path.realpath(REPO) == "/repo" and "--unit" not in sys.argv else os.path.join(VERIF, "work", "evidence-scratch")
+    os.makedirs(evdir, exist_ok=True)
+    with open(os.path.join(evdir, prop + ".json"), "w") as f:
         json.dump(ev, f, indent=1)
     print("%s tier=%s obligations=%d discharged=%d bounded=%d guards=%s wall=%.1fs" % (prop, tier, obligations, discharged, len(bounded), guards, wall))
     if violations:
